@@ -67,7 +67,11 @@ def run_pair(ctx, pred, refa, fam, thresholds=None, metrics=("IOU", "DSC", "ASSD
                 ctx.count("evaluations")
                 try:
                     with pan.quiet():
-                        out = matcher.match_instances(UnmatchedInstancePair(pred.copy(), refa.copy()))
+                        pair = UnmatchedInstancePair(pred.copy(order="K"), refa.copy(order="K"))
+                        out = matcher.match_instances(pair)
+                        if ctx.cases_run % 2:  # the same matcher on the same pair object once more (judged as well)
+                            ctx.count("C04.repeated_calls")
+                            out = matcher.match_instances(pair)
                 except Exception as e:  # noqa: BLE001
                     ctx.viol(
                         "match_instances_raised",
@@ -160,4 +164,10 @@ def run(case, ctx):
     if not pred.any() or not refa.any():
         ctx.count("skipped_empty_side")
         return
+    if pred.ndim >= 2 and i % 4 == 3:  # non-C memory layouts
+        if i % 8 == 3:
+            pred, refa = np.asfortranarray(pred), np.asfortranarray(refa)
+        else:
+            pred, refa = np.ascontiguousarray(pred.T).T, np.asfortranarray(refa)
+        ctx.count("f:C04.non_c_layout")
     run_pair(ctx, pred, refa, fam)
